@@ -431,6 +431,62 @@ def run_circuit_case(case, acc):
                     cx.bad(f"chain:{n1}>{n2}", "object-inconsistent", {"size": c.size, "width": c.width})
 
 
+    # ---- structural histories on ONE object: inspect / split / re-index / trim in every order (E2) -------------------------------
+    # The oracle is purely structural (no unitaries): the entangled subsets and the parts returned by split must be those of the
+    # gate list as it is NOW, after whatever relabelling the object went through.
+    if level == "all" and case.get("chains", True) and nq is None and len(U) >= 2:
+        def ent_subsets(w):
+            comps = []
+            for _, t, cq, _, _ in w:
+                qn = set(t) | set(cq or [])
+                for qs in comps[::-1]:
+                    if qn & qs:
+                        qn |= qs
+                        comps.remove(qs)
+                comps.append(qn)
+            return sorted(sorted(x) for x in comps)
+
+        def relabel_word(w, mp):
+            return [[nm, [mp[q] for q in t], (None if cq is None else [mp[q] for q in cq]), p_, v] for nm, t, cq, p_, v in w]
+
+        for hist in itertools.product(("ent", "split", "reidx", "trim"), repeat=3):
+            c = fresh()
+            cur = [list(d) for d in word]
+            for step, op in enumerate(hist):
+                acc.transitions += 1
+                try:
+                    if op == "ent":
+                        got = sorted(sorted(x) for x in c.get_entangled_indices())
+                        if got != ent_subsets(cur):
+                            cx.bad("history:get_entangled_indices", "not-the-subsets-of-the-current-gate-list",
+                                   {"history": list(hist[:step + 1]), "got": got, "expected": ent_subsets(cur)})
+                            break
+                    elif op == "split":
+                        parts = c.split(trim_qubits=False)
+                        got = sorted(gl(p_) for p_ in parts)
+                        want = sorted([d for d in cur if (set(d[1]) | set(d[2] or [])) & set(comp)] for comp in ent_subsets(cur))
+                        if got != want:
+                            cx.bad("history:split", "parts-are-not-those-of-the-current-gate-list",
+                                   {"history": list(hist[:step + 1]), "got": got, "expected": want})
+                            break
+                    elif op == "reidx":
+                        qs = sorted(used(cur))
+                        new = qs[1:] + qs[:1]
+                        c.reindex_qubits(new)
+                        cur = relabel_word(cur, dict(zip(qs, new)))
+                    elif op == "trim":
+                        qs = sorted(used(cur))
+                        c.trim_qubits()
+                        cur = relabel_word(cur, {q: i for i, q in enumerate(qs)})
+                except Exception as e:
+                    cx.bad(f"history:{op}", "exception", {"history": list(hist[:step + 1]), "err": repr(e)[:300]})
+                    break
+                acc.ev()
+                if gl(c) != [SV.desc(mk_gate(d)) for d in cur]:
+                    cx.bad(f"history:{op}", "gate-list-differs-from-the-modelled-relabelling", {"history": list(hist[:step + 1]), "got": gl(c)})
+                    break
+
+
 # ---------------------------------------------------------------------------------------------------------------------
 # gate-level cases
 
